@@ -28,8 +28,8 @@ def ck(b):
     return ("a", (("i", len(b)), ("i", s)))
 
 
-SIZES = [0, 1, 2, 100, 4095, 4096, 4097, 8091, 8092, 8191, 8192, 8193, 12288, 20000, 70000]
-NS = [0, 1, 2, 100, 4095, 4096, 4097, 8092, 8192, 8193, 12288, 20000, 100000]
+SIZES = [0, 1, 2, 100, 4095, 4096, 4097, 8091, 8092, 8191, 8192, 8193, 12288, 20000, 65535, 65536, 65537, 70000, 140000]
+NS = [0, 1, 2, 100, 4095, 4096, 4097, 8092, 8192, 8193, 12288, 20000, 65535, 65536, 65537, 100000, 4294967296, 4294967297]
 
 
 def content(rng, size, text, multibyte=True):
@@ -125,7 +125,7 @@ def run(chk):
     chk.assumptions = ["delays are workload, not verdicts: results are compared on data only", "text-only calls (read_line, read_to_string) are "
                        "issued on UTF-8 content only", "a negative byte count is not generated"]
     chk.floor = 500
-    chk.rule += '; plus 2-3 append handles on one file with interleaved flushed writes, byte arrays / packets at and beyond the write-buffer size after pending small writes'
+    chk.rule += '; plus 2-3 append handles on one file with interleaved flushed writes, byte arrays / packets at and beyond the write-buffer size after pending small writes; stdin and file contents of 65535-300000 bytes, read counts around 2^16 and 2^32'
     work = core.scratch_dir()
     try:
         cases = []
@@ -353,7 +353,7 @@ def run(chk):
         path = os.path.join(work, "s.p2")
         for t in range(n_s):
             text = rng.random() < 0.6
-            size = rng.choice([0, 1, 100, 4096, 8192, 8193, 20000, 30000])
+            size = rng.choice([0, 1, 100, 4096, 8192, 8193, 20000, 30000, 65535, 65536, 65537, 70000, 140000, 300000])
             data = content(rng, size, text, multibyte=False)
             calls = []
             for _ in range(rng.randint(1, 6)):
